@@ -153,11 +153,19 @@ def minimise(mod, case, vclass, max_runs=400):
     return best, runs[0]
 
 
+def out_dir(kind):
+    """evidence/ and replays/ live in /verif unless VERIF_EVIDENCE_DIR redirects them (used when the checks are
+    pointed at a scratch tree with a seeded change, so that the committed evidence is never overwritten)"""
+    base = os.environ.get('VERIF_EVIDENCE_DIR')
+    d = os.path.join(base, kind) if base else os.path.join(VERIF, kind)
+    os.makedirs(d, exist_ok=True)
+    return d
+
+
 def write_replay(mod, case, vclass, observed):
-    os.makedirs(os.path.join(VERIF, 'replays'), exist_ok=True)
     body = {'property': mod.ID, 'violation_class': vclass, 'case': case, 'observed': observed}
     name = f'{mod.ID}-{digest(body)}.json'
-    path = os.path.join(VERIF, 'replays', name)
+    path = os.path.join(out_dir('replays'), name)
     with open(path, 'w') as f:
         json.dump(body, f, indent=1, sort_keys=True, default=str)
     return path
@@ -203,7 +211,6 @@ def load_known(pid):
 # evidence
 # -----------------------------------------------------------------------------------------------
 def write_evidence(mod, tier, seed, wall_s, coverage, violations, assumptions=None):
-    os.makedirs(os.path.join(VERIF, 'evidence'), exist_ok=True)
     ev = {
         'property_id': mod.ID,
         'tier': tier,
@@ -214,7 +221,7 @@ def write_evidence(mod, tier, seed, wall_s, coverage, violations, assumptions=No
         'wall_s': round(wall_s, 2),
         'violations': int(violations),
     }
-    path = os.path.join(VERIF, 'evidence', f'{mod.ID}.json')
+    path = os.path.join(out_dir('evidence'), f'{mod.ID}.json')
     tmp = path + '.tmp'
     with open(tmp, 'w') as f:
         json.dump(ev, f, indent=1, default=str)
